@@ -399,6 +399,54 @@ func c14CheckMessage(m *AMsg) string {
 			return fmt.Sprintf("%s re-encoded with a difference:\n in: %q\nout: %q", hKindNames[k], want, got)
 		}
 	}
+	// the one decoded value the proxy edits in place: received/rport on the top
+	// Via entry - every other entry and parameter must survive the edit
+	if len(vias) > 0 {
+		msg2, err := ParseMessage(bufio.NewReader(strings.NewReader(string(wire))))
+		if err == nil && msg2.SetReceived("192.0.2.77", 5099) == nil {
+			out2, _ := msg2.Bytes()
+			r2, err := sipRead(out2)
+			if err != nil {
+				return fmt.Sprintf("message unreadable after SetReceived: %v", err)
+			}
+			got := r2.Entries(hVia)
+			if len(got) != len(vias) {
+				return fmt.Sprintf("Via: %d entries after SetReceived, want %d: %q", len(got), len(vias), got)
+			}
+			top := stampModel(m.Vias()[0], true, "192.0.2.77", 5099)
+			if f := checkStampedText(m.Vias()[0], got[0], top); f != "" {
+				return f
+			}
+			for i := 1; i < len(vias); i++ {
+				if got[i] != vias[i] {
+					return fmt.Sprintf("Via entry %d changed when received/rport were set on the top entry:\n in: %q\nout: %q", i, vias[i], got[i])
+				}
+			}
+		}
+	}
+	return ""
+}
+
+// checkStampedText: the stamped top entry, up to the position of a newly added received parameter.
+func checkStampedText(in AVia, outText string, want AVia) string {
+	ov, err := rVia(outText)
+	if err != nil {
+		return fmt.Sprintf("top Via entry unreadable after SetReceived: %q", outText)
+	}
+	strip := func(v AVia) AVia {
+		var ps []AParam
+		for _, p := range v.Params {
+			if p.K != "received" {
+				ps = append(ps, p)
+			}
+		}
+		v.Params = ps
+		return v
+	}
+	rcv, _, ok := ov.Param("received")
+	if !ok || rcv != "192.0.2.77" || strip(ov).String() != strip(want).String() {
+		return fmt.Sprintf("top Via entry after SetReceived(192.0.2.77, 5099):\n in: %q\nout: %q\nwant (received position free): %q", in.String(), outText, want.String())
+	}
 	return ""
 }
 
